@@ -53,6 +53,7 @@ STMT_BUNDLES = {
     'global': ['global {n}', "{n}='{t}'", 'obs({n})'],
     'global_load': ['global {n}', 'obs({n})'],
     'global_del': ['global {n}', "{n}='{t}'", 'del {n}'],
+    'global_del_only': ['global {n}', 'try:del {n}\nexcept NameError:obs(0)', 'obs({n})'],      # only deleted and read: the module never binds it
     'nonlocal': ['nonlocal {n}', "{n}='{t}'", 'obs({n})'],
     'nonlocal_load': ['nonlocal {n}', 'obs({n})'],
     # the tracked name declared together with a user name taken from the renamer's own output alphabet
@@ -63,7 +64,7 @@ STMT_BUNDLES = {
     'ann_var_self': ["{n}:{n}='{t}'", 'obs({n})'],          # variable annotated with its own name (evaluated in module/class scope, not in functions)
     'ann_var_obs': ["v_:obs({n})=0", 'obs({n})'],
 }
-MODULE_EXCLUDED = ('global', 'global_load', 'global_del', 'nonlocal', 'nonlocal_load', 'global_with_A', 'global_load_with_A', 'nonlocal_with_A')
+MODULE_EXCLUDED = ('global', 'global_load', 'global_del', 'global_del_only', 'nonlocal', 'nonlocal_load', 'global_with_A', 'global_load_with_A', 'nonlocal_with_A')
 
 # def / adef: (params, call args, body statements)
 DEF_PARAM_BUNDLES = {
@@ -396,7 +397,7 @@ def bundles_for(kind, level, in_class=False):
             ids = [i for i in STMT_BUNDLES if not i.startswith('ann_var_')]
         elif level == 'mid':
             ids = ['none', 'load', 'assign', 'store_only', 'aug_only', 'ann_only', 'for', 'except', 'import', 'import_dotted', 'from_import', 'def', 'class', 'walrus', 'del',
-                   'match_capture', 'typeparam', 'load_before', 'global', 'global_load', 'nonlocal', 'nonlocal_load', 'assign_with_A', 'global_with_A',
+                   'match_capture', 'typeparam', 'load_before', 'global', 'global_load', 'global_del_only', 'nonlocal', 'nonlocal_load', 'assign_with_A', 'global_with_A',
                    'global_load_with_A', 'nonlocal_with_A']
         else:
             ids = ['none', 'load', 'assign', 'global', 'nonlocal', 'load_before'] + (['store_only'] if kind == 'class' else [])
@@ -492,25 +493,28 @@ def label(shape, levels, names=(X,), child_first=False, decoy=False):
     for i, node in enumerate(nodes):
         ids = bundles_for(node[0], levels(i, len(nodes)))
         choices.append(ids)
+    last = nodes[-1]
+    # decoy programs come in two flavours: the innermost scope reads the injected global B, or (functions only) declares it global and
+    # deletes it - a name that is only deleted is not bound by the module either, and must keep its spelling
+    flavours = (('load',), ('load', 'global_del_only'))[bool(decoy) and last[0] in ('def', 'adef')] if decoy else (None,)
     for combo in itertools.product(*choices):
-        it = iter(combo)
+        for flavour in flavours:
+            it = iter(combo)
 
-        last = nodes[-1]
-
-        def build(node):
-            bid = next(it)
-            children = [(slot, build(ch)) for slot, ch in node[1]]
-            bundles = ((names[0], bid),)
-            if decoy:
-                # names from the renamer's own output alphabet used by the program itself: `A` is a module global, `B` is never bound by the
-                # module (injected through the execution namespace); the innermost scope reads both, so no binding on the way may be named A or B
-                if node is shape:
-                    bundles = (('A', 'store_only'),) + bundles
-                if node is last:
-                    load = 'load' if node[0] in ('module', 'def', 'adef', 'class', 'lambda') else 'load_elt'
-                    bundles = bundles + (('A', load), ('B', load))
-            return Scope(node[0], bundles, children, child_first and bool(children))
-        yield build(shape)
+            def build(node):
+                bid = next(it)
+                children = [(slot, build(ch)) for slot, ch in node[1]]
+                bundles = ((names[0], bid),)
+                if decoy:
+                    # names from the renamer's own output alphabet used by the program itself: `A` is a module global, `B` is never bound by the
+                    # module (injected through the execution namespace); the innermost scope reads both, so no binding on the way may be named A or B
+                    if node is shape:
+                        bundles = (('A', 'store_only'),) + bundles
+                    if node is last:
+                        load = 'load' if node[0] in ('module', 'def', 'adef', 'class', 'lambda') else 'load_elt'
+                        bundles = bundles + (('A', load), ('B', load if flavour == 'load' else flavour))
+                return Scope(node[0], bundles, children, child_first and bool(children))
+            yield build(shape)
 
 
 def count_nodes(shape):
